@@ -265,6 +265,7 @@ EX_GAUGE = EX([
     ("exec_quiescent_gauges_zero", "quiescent_gauges_zero", "both gauges read zero once everybody has returned — by return, refusal or PANIC of the run function or of the fallback"),
     ("exec_fallbacks_in_flight_le_limit", "fallbacks_in_flight_le_limit", "never more callers inside a fallback function than the fallback limit"),
     ("exec_negative_fallback_limit", "negative_fallback_limit_refuses_nobody", "a negative fallback limit refuses nobody")])
+EX_KILL = EX([("exec_disabled_is_pass_through", "disabled_is_pass_through", "the kill switch, every schedule: with Disabled on, Execute is the run function called directly — its answer, error or panic straight to the caller, exactly one direct call, no admission, no run event, no fallback, no fallback event, and both gauges stay at zero whatever everybody else is doing")])
 EX_LIVE = EX([("exec_never_deadlocks", "never_deadlocks", "whole Executes racing transitions and reconfigurations never deadlock")])
 RD_VIEW = [(("dyn_call_thread_view", "CM.Props.RunDynView.call_thread_view", "every schedule of calls racing operators, seen from one call thread, is a solo run of the static model's thread against some oracle — the runs the K6 ties of `run` / `IsOpen` / `openCircuit` / `close` quantify over"), "Props.RunDynView")]
 
@@ -400,7 +401,7 @@ PROPS = {
     "C06": ("fallback rules: `Execute` and `fallback`", [FALLBACK, EXECUTE, RUNENTRY] + FAN_FB + ERR_BAD + ERR_NOTBAD + K6_FB[:1] + K6_FB[2:] + EX_CONTRACT + EX_EVENTS[:2] + EX_LIVE),
     "C07": ("contexts: the derived deadline context in `run`, the caller's context everywhere else", [RUN, FALLBACK, EXECUTE]),
     "C08": ("overrides and pass-through: `IsOpen`, `allowNewRun`, the transitions, `Execute`'s Disabled branch, the published flags",
-            [C("IsOpen"), C("isEmptyOrNil"), C("allowNewRun"), C("openCircuit"), C("close"), C("attemptToOpen"), EXECUTE] + LIVECFG + SETCFG + ATOM_BOOL + CIRC_MISC + RD_C08 + RD_ALT + RD_VIEW),
+            [C("IsOpen"), C("isEmptyOrNil"), C("allowNewRun"), C("openCircuit"), C("close"), C("attemptToOpen"), EXECUTE] + LIVECFG + SETCFG + ATOM_BOOL + CIRC_MISC + RD_C08 + RD_ALT + RD_VIEW + EX_KILL),
     "C09": ("transitions and their notifications",
             [C("IsOpen"), C("openCircuit"), C("close"), C("attemptToOpen"), C("OpenCircuit"), C("CloseCircuit"), C("checkSuccess"), C("checkErrFailure"), C("checkErrTimeout")] + FAN_CIRC + SETCFG + ATOM_BOOL + K6_TRANS + K6_CORE + CTOR + HFAC_CLOSER[2:3] + HFAC_OPENER[5:6] + K6_RUN + RD_ALT),
     "C10": ("panics: the deferred calls of `run` and `fallback` run on every exit", [RUN, FALLBACK, EXECUTE] + CIRC_MISC + RUN_EVENTS[:1] + RUN_C04[3:4] + RUN_LIVE + K6_RUN[:1] + RD_EVENTS[:1] + RD_GAUGE[1:2] + RD_LIVE + EX_GAUGE[1:2] + EX_EVENTS[:1] + EX_LIVE),
